@@ -26,22 +26,47 @@ import (
 func batch(seed uint64, tier, which string) []program {
 	r := hk.NewRand(seed*1000003 + map[string]uint64{"inproc": 17, "race": 91}[which])
 	thorough := tier == "thorough"
-	per := map[string]int{"inproc": 10, "race": 5}[which]
+	per := map[string]int{"inproc": 36, "race": 24}[which]
 	if thorough {
-		per = map[string]int{"inproc": 90, "race": 40}[which]
+		per = map[string]int{"inproc": 420, "race": 240}[which]
 	}
 	var ps []program
 	for round := 0; round < per; round++ {
 		for _, k := range StoreKinds {
 			p := genProgram(r.Fork(), k, thorough)
 			if k == "diskpacked" && round%3 == 0 {
-				p.Max = 1 // every receive rolls the pack over: fds grows under concurrent fetches
+				p = targetFds(r.Fork())
 			}
 			ps = append(ps, p)
 		}
-		ps = append(ps, genIxProgram(r.Fork(), fmt.Sprintf("%d-%s-%d", seed, which, round), thorough))
+		ps = append(ps, genIxProgram(r.Fork(), fmt.Sprintf("%d-%s-%d", seed, which, round), thorough, round%3 == 0))
 	}
 	return ps
+}
+
+// targetFds is the program aimed at diskpacked's `fds` slice: maxFileSize=1 makes every receive roll
+// the pack over (nextPack appends to s.fds under s.mu) while other clients fetch blobs that are
+// already there (fetch indexes s.fds).
+func targetFds(r *hk.Rand) program {
+	p := program{Kind: "diskpacked", Max: 1, Pool: genPool(r, 14), YLevel: 1}
+	for c := 0; c < 8; c++ {
+		var ops []opIn
+		for i := 0; i < 12; i++ {
+			k := r.Intn(len(p.Pool))
+			switch {
+			case c%2 == 0 && i < 2:
+				ops = append(ops, opIn{Kind: "recv", K: (c/2*2 + i) % len(p.Pool)})
+			case c%2 == 0:
+				ops = append(ops, opIn{Kind: "fetch", K: r.Intn(8)})
+			case r.Chance(80):
+				ops = append(ops, opIn{Kind: "recv", K: k})
+			default:
+				ops = append(ops, opIn{Kind: "stat", K: k})
+			}
+		}
+		p.Clients = append(p.Clients, ops)
+	}
+	return p
 }
 
 func run1(p program, race bool) (*history, error) {
@@ -143,6 +168,9 @@ func conflicts(h *history) map[string]int {
 	return m
 }
 
+// checkTimeout bounds porcupine on one history (a quarter of it for each relaxed re-check)
+const checkTimeout = 12 * time.Second
+
 type tally struct {
 	histories, linearizable, illegal, unknown, ops, raceHist int
 }
@@ -162,7 +190,7 @@ func checkHistory(r *hk.Run, h *history, t *tally) {
 	}
 	if h.Hung {
 		r.ImplOnly("history-hung")
-		r.Fail("call-hung:"+h.Kind, "a call did not return within 20 s (deadlock?): "+histText(h, w, 60), "every call returns", "hang", nil)
+		r.Fail("call-hung:"+h.Kind, "a call did not return within 8 s (deadlock?): "+histText(h, w, 60), "every call returns", "hang", nil)
 		return
 	}
 	all := append(append([]rec(nil), h.Recs...), h.Final...)
@@ -186,7 +214,7 @@ func checkHistory(r *hk.Run, h *history, t *tally) {
 		}
 	}
 	// panics / unexpected error classes are visible as outputs that no sequential run produces
-	v := w.check(all, 20*time.Second)
+	v := w.check(all, h.Kind, checkTimeout)
 	switch v.res {
 	case porcupine.Ok:
 		t.linearizable++
@@ -203,15 +231,26 @@ func checkHistory(r *hk.Run, h *history, t *tally) {
 		}
 	case porcupine.Illegal:
 		t.illegal++
+		if d := os.Getenv("C14_DEBUG"); d != "" {
+			js, _ := json.Marshal(h)
+			os.WriteFile(filepath.Join(d, fmt.Sprintf("%s-%s-%d.json", h.Kind, strings.Join(v.classes, "+"), t.histories)), js, 0o644)
+		}
 		r.ImplOnly("history-not-linearizable")
 		var ops []string
 		ops = append(ops, "store "+h.Kind)
 		for _, rc := range all {
 			ops = append(ops, w.opLine(rc.In))
 		}
-		r.Fail("nonlin:"+h.Kind+":"+v.class,
-			"history is not linearizable against the reference map ("+v.class+"): "+histText(h, w, 140),
-			"some order of the calls that respects real time and answers like RefMap", "none exists (porcupine)", ops)
+		if v.classes == nil {
+			r.Fail("nonlin:"+h.Kind+":unexplained",
+				"history is not linearizable against the reference map, and none of the known anomalies of this store explains it: "+histText(h, w, 140),
+				"some order of the calls that respects real time and answers like RefMap", "none exists (porcupine)", ops)
+		}
+		for _, c := range v.classes {
+			r.Hit("anomaly:" + h.Kind + ":" + c)
+			r.Fail(sigOf(c), fmt.Sprintf("history on %s is not linearizable against the reference map; explained by %v: %s", h.Kind, v.classes, histText(h, w, 140)),
+				"some order of the calls that respects real time and answers like RefMap", "none exists (porcupine)", ops)
+		}
 	default:
 		t.unknown++
 		r.ImplOnly("history-check-timeout")
@@ -272,10 +311,10 @@ func Run(r *hk.Run) {
 	r.Res.Rule = "a history counts when at least two calls of different clients overlapped in real time on the same blob (or with an enumerate/claims query) and one of them writes; key = store kind / #clients / set of overlapping call-kind pairs"
 	ystate.Store(r.Res.Seed*1315423911 + 7)
 	var t tally
-	budget := 45 * time.Second
-	raceBudget := 50 * time.Second
+	budget := 60 * time.Second
+	raceBudget := 40 * time.Second
 	if r.Thorough() {
-		budget, raceBudget = 6*time.Minute, 6*time.Minute
+		budget, raceBudget = 7*time.Minute, 5*time.Minute
 	}
 
 	// the -race binary is built while the in-process batch runs
@@ -329,6 +368,7 @@ func Run(r *hk.Run) {
 	// witnesses of the findings of this property
 	r.Probe("F-C14-1", seen[sigFds] > 0, fmt.Sprintf("race reports with signature %s in this run: %d", sigFds, seen[sigFds]))
 	r.Probe("F-C14-2", seen[sigDelClaim] > 0, fmt.Sprintf("race reports with signature %s in this run: %d", sigDelClaim, seen[sigDelClaim]))
+	knownWitnesses(r)
 	dead, detail := probeNestedRLock()
 	r.Probe("F-C14-3", dead, detail)
 	if dead {
@@ -341,7 +381,7 @@ func Run(r *hk.Run) {
 
 const (
 	sigFds      = "race:diskpacked.(*storage).fetch|diskpacked.(*storage).openForRead"
-	sigDelClaim = "race:index.(*Corpus).GetBlobMeta|index.(*Corpus).mergeMetaRow"
+	sigDelClaim = "race:index.(*Corpus).GetBlobMeta|index.(*Corpus).mergeBlobMeta"
 )
 
 // ---- sequential interpreter (replay) --------------------------------------------------------------------
